@@ -70,3 +70,70 @@ def param_used(ctx, rule, files):
                "depends on an argument the caller supplies", role="reads-params" + ("" if not bad else ":" + ",".join(bad)),
                line=f.node.lineno)
     return n
+
+
+# (caller, callee, parameter) triples where an option of the same name is deliberately / harmlessly not passed on today
+FORWARD_EXEMPT = {
+    ("utils/states.py::displaced_squeezed_state", "coherent_state", "hbar"):
+        "the call fixes basis='fock'; coherent_state uses hbar in its 'gaussian' branch only",
+    ("backends/gaussianbackend/gaussiancircuit.py::GaussianModes.fidelity_vacuum", "GaussianModes.fidelity_coherent", "modes"):
+        "latent: no caller in the package supplies `modes` to GaussianModes.fidelity_vacuum (is_vacuum calls it without arguments), so "
+        "the missing forwarding cannot be observed through the public API",
+}
+
+
+def option_forwarding(ctx, rule, files):
+    """an option the caller accepts under the same name as an optional parameter of the internal function it delegates to is
+    passed on: otherwise the caller's option silently stops applying to that part of the work (tolerances of a sub-step, the
+    node-selection rule of a recursive call)"""
+    import ast as _ast
+    from ..loader import dotted, walk_no_nested
+    ctx.explain(f"{rule}: where a function of the property's anchored files calls a function of the package (module-level function with "
+                "a unique name, or a method resolved through the class of `self`) that has an OPTIONAL parameter of the same name as one "
+                "of the caller's own parameters, the call binds it (by position or keyword). Two sites on the pinned tree do not and "
+                "are frozen with their reasons.")
+    rels = {x[len("strawberryfields/"):] if x.startswith("strawberryfields/") else x for x in files}
+    by_name = {}
+    for g in ctx.tree.all_functions():
+        if g.cls is None and "<locals>" not in g.qualname:
+            by_name.setdefault(g.name, []).append(g)
+
+    def optional(g):
+        a = g.node.args
+        pos = a.args
+        return {p.arg for p in pos[len(pos) - len(a.defaults):]} | {p.arg for p, dv in zip(a.kwonlyargs, a.kw_defaults) if dv is not None}
+
+    n = 0
+    for f in ctx.tree.all_functions():
+        if f.module.rel not in rels:
+            continue
+        fp = set(f.params) - {"self", "cls"}
+        if not fp:
+            continue
+        for c in walk_no_nested(f.node):
+            if not isinstance(c, _ast.Call):
+                continue
+            nm = dotted(c.func)
+            g = None
+            if nm and "." not in nm and nm in f.module.functions and f.module.functions[nm].cls is None:
+                g = f.module.functions[nm]  # a function of the same module (incl. recursion)
+            elif nm and "." not in nm and len(by_name.get(nm, ())) == 1 and nm not in f.params:
+                g = by_name[nm][0]
+            elif nm and nm.startswith("self.") and nm.count(".") == 1 and f.cls is not None:
+                g = f.cls.lookup(nm.split(".")[1])
+            if g is None:
+                continue
+            if any(k.arg is None for k in c.keywords) or any(isinstance(a, _ast.Starred) for a in c.args):
+                continue
+            gpos = [p for p in g.params if p not in ("self", "cls")]
+            bound = {k.arg for k in c.keywords if k.arg} | set(gpos[:len(c.args)])
+            cand = fp & optional(g)
+            if not cand:
+                continue
+            n += 1
+            miss = sorted(p for p in cand - bound
+                          if (f"{f.module.rel}::{f.qualname}", g.qualname, p) not in FORWARD_EXEMPT)
+            ctx.ob(rule, f.site, not miss, "" if not miss else f"`{_ast.unparse(c)[:60]}` does not pass on the caller's own option(s) {miss}: "
+                   f"{g.qualname} falls back to its default there", role=f"forwards:{g.name}" + ("" if not miss else ":" + ",".join(miss)),
+                   line=c.lineno)
+    return n
